@@ -366,3 +366,32 @@ func VH_C18_instructions_large() {
 	u := NewUePolDeliverySer()
 	vrt.Assert(u.UePolDeliverySerDecode(msg) == nil, "the command carrying a maximal sub-list decodes")
 }
+
+// A receiver that already went through a decode: decoding into it again gives exactly what a fresh receiver gives
+// (nothing of the earlier message survives), for every pair of byte strings. The three message kinds and arbitrary input.
+func VH_C18_decode_reused_receiver() {
+	hi := 8
+	if vrt.Thorough() {
+		hi = 10
+	}
+	b1 := vrt.Bytes("b1", vrt.Choose("n1", 2, hi))
+	b2 := vrt.Bytes("b2", vrt.Choose("n2", 2, hi))
+	vrt.Assume(b1[1] >= 1 && b1[1] <= 4 && b2[1] >= 1 && b2[1] <= 4) // the message type octet: command, complete, reject, one unknown
+	u := NewUePolDeliverySer()
+	err1 := u.UePolDeliverySerDecode(b1)
+	if err1 != nil {
+		return
+	}
+	err2 := u.UePolDeliverySerDecode(b2)
+	f := NewUePolDeliverySer()
+	errF := f.UePolDeliverySerDecode(b2)
+	vrt.Assert((err2 == nil) == (errF == nil), "a reused receiver accepts exactly what a fresh one accepts")
+	if err2 == nil {
+		w1, e1 := u.UePolDeliverySerEncode()
+		w2, e2 := f.UePolDeliverySerEncode()
+		vrt.Assert((e1 == nil) == (e2 == nil), "a reused receiver re-encodes like a fresh one (error)")
+		if e1 == nil {
+			vrt.Equal(w1, w2, "a reused receiver re-encodes to the same octets as a fresh one: nothing of the earlier message survives")
+		}
+	}
+}
